@@ -93,6 +93,10 @@ func runC13(c *an.Ctx) {
 				if lf != nil && len(p.CallsIn(lf, "builtin.recover")) > 0 && handler == nil {
 					handler, handlerDefer = lf, x.Pos()
 				}
+			} else if g := p.FnByObj[an.Callee(info, x.Call)]; g != nil && g.Body != nil && len(p.CallsIn(g, "builtin.recover")) > 0 && handler == nil {
+				// the handler written as a method or function of its own (it must be the deferred call itself to recover)
+				defers = append(defers, deferred{x.Pos(), g})
+				handler, handlerDefer = g, x.Pos()
 			}
 		case *ast.CallExpr:
 			if an.IsCallTo(info, x, execList) && len(x.Args) == 1 && p.FieldKey(info, x.Args[0]) == "TryNode.List" {
@@ -300,6 +304,36 @@ func runC13(c *an.Ctx) {
 	key := "(*Runtime).executeTry"
 	// Writer = fresh buffer before the body, with a deferred restore registered after the handler
 	var bufVar, writerVar types.Object
+	// … or members of one struct local that carries them (frame := tryFrame{writer: st.Writer, buf: new(bytes.Buffer), …})
+	var frameObj types.Object
+	writerMember, bufMember := "", ""
+	freshBuffer := func(e ast.Expr) bool {
+		switch an.Str(an.Unparen(e)) {
+		case "new(bytes.Buffer)", "&bytes.Buffer{}", "bytes.NewBuffer(nil)":
+			return true
+		}
+		return false
+	}
+	// isWriter / isBuf: the expression (in function fn: executeTry, a deferred literal, or the handler) is the saved
+	// writer / the try buffer — the local itself, a helper's parameter bound to it, or the struct member holding it
+	isWriter := func(fn *an.Fn, e ast.Expr) bool {
+		if o := throughBinds(p, fn, e); o != nil && writerVar != nil && o == writerVar {
+			return true
+		}
+		if o, k, ok := structMember(p, fn, e); ok && frameObj != nil && o == frameObj && k == writerMember && writerMember != "" {
+			return true
+		}
+		return false
+	}
+	isBuf := func(fn *an.Fn, e ast.Expr) bool {
+		if o := throughBinds(p, fn, e); o != nil && bufVar != nil && o == bufVar {
+			return true
+		}
+		if o, k, ok := structMember(p, fn, e); ok && frameObj != nil && o == frameObj && k == bufMember && bufMember != "" {
+			return true
+		}
+		return false
+	}
 	var bufStore token.Pos
 	for _, st := range try.Body.List {
 		an.Assigns(st, func(lhs, rhs ast.Expr, _ token.Token) {
@@ -311,13 +345,37 @@ func runC13(c *an.Ctx) {
 				case p.FieldKey(info, rhs) == "escapeeWriter.Writer":
 					writerVar = an.ObjOf(info, id)
 				case strings.Contains(an.TypeName(info.Types[rhs].Type), "bytes.Buffer"):
-					if s := an.Str(rhs); s == "new(bytes.Buffer)" || s == "&bytes.Buffer{}" || s == "bytes.NewBuffer(nil)" {
+					if freshBuffer(rhs) {
 						bufVar = an.ObjOf(info, id)
+					}
+				}
+				if obj := an.ObjOf(info, id); obj != nil {
+					if lit := savedStructLit(p, try, obj); lit != nil {
+						for _, el := range lit.Elts {
+							kv, ok := el.(*ast.KeyValueExpr)
+							if !ok {
+								continue
+							}
+							k, ok := kv.Key.(*ast.Ident)
+							if !ok {
+								continue
+							}
+							switch {
+							case p.FieldKey(info, kv.Value) == "escapeeWriter.Writer" && throughRuntime(p, info, kv.Value):
+								frameObj, writerMember = obj, k.Name
+							case freshBuffer(kv.Value):
+								frameObj, bufMember = obj, k.Name
+							default:
+								if vid, ok := an.Unparen(kv.Value).(*ast.Ident); ok && bufVar != nil && an.ObjOf(info, vid) == bufVar {
+									frameObj, bufMember = obj, k.Name
+								}
+							}
+						}
 					}
 				}
 			}
 			if p.FieldKey(info, lhs) == "escapeeWriter.Writer" && st.Pos() < bodyCall {
-				if id, ok := an.Unparen(rhs).(*ast.Ident); ok && bufVar != nil && an.ObjOf(info, id) == bufVar {
+				if isBuf(try, rhs) {
 					bufStore = st.Pos()
 				}
 			}
@@ -334,7 +392,7 @@ func runC13(c *an.Ctx) {
 		an.InspectOwn(d.lit, func(n ast.Node) bool {
 			an.Assigns(n, func(lhs, rhs ast.Expr, _ token.Token) {
 				if p.FieldKey(info, lhs) == "escapeeWriter.Writer" && rhs != nil {
-					if id, ok := an.Unparen(rhs).(*ast.Ident); ok && writerVar != nil && an.ObjOf(info, id) == writerVar {
+					if isWriter(d.lit, rhs) {
 						restoreDefer = d.pos
 					}
 				}
@@ -364,15 +422,13 @@ func runC13(c *an.Ctx) {
 		} else {
 			srcE = an.Receiver(cc)
 		}
-		d, okd := an.Unparen(dstE).(*ast.Ident)
-		s, oks := an.Unparen(srcE).(*ast.Ident)
-		if !(okd && an.ObjOf(hinfo, d) == writerVar) {
+		if !isWriter(handler, dstE) {
 			// the current writer is acceptable too: the restore defer has already run
 			if p.FieldKey(hinfo, dstE) != "escapeeWriter.Writer" {
 				okCopy, why = false, "the buffer is copied to "+an.Str(dstE)+", not to the writer saved before the redirect"
 			}
 		}
-		if !(oks && an.ObjOf(hinfo, s) == bufVar) {
+		if !isBuf(handler, srcE) {
 			okCopy, why = false, "the data copied to the writer is not the try buffer"
 		}
 	} else if why == "" {
@@ -494,7 +550,58 @@ func runC13(c *an.Ctx) {
 				}
 			}
 		}
-		_ = pinfo
+		// the comma-ok form: the asserted value is used only where the ok result is known to be true
+		if assertStmt != nil {
+			if as := assertStmt.(*ast.AssignStmt); len(as.Lhs) == 2 {
+				vid, ok1 := as.Lhs[0].(*ast.Ident)
+				oid, ok2 := as.Lhs[1].(*ast.Ident)
+				if ok1 && ok2 && oid.Name != "_" {
+					vobj, oobj := an.ObjOf(pinfo, vid), an.ObjOf(pinfo, oid)
+					var uses []ast.Node
+					an.InspectOwn(pc, func(n ast.Node) bool {
+						switch s := n.(type) {
+						case *ast.AssignStmt:
+							if s == as {
+								return true
+							}
+							for _, r := range s.Rhs {
+								ast.Inspect(r, func(m ast.Node) bool {
+									if id, isId := m.(*ast.Ident); isId && an.ObjOf(pinfo, id) == vobj {
+										uses = append(uses, s)
+									}
+									return true
+								})
+							}
+						case *ast.ReturnStmt:
+							for _, r := range s.Results {
+								ast.Inspect(r, func(m ast.Node) bool {
+									if id, isId := m.(*ast.Ident); isId && an.ObjOf(pinfo, id) == vobj {
+										uses = append(uses, s)
+									}
+									return true
+								})
+							}
+						}
+						return true
+					})
+					if len(uses) > 0 {
+						pr := p.ProbeFn(pc, uses, an.Hooks{})
+						c.States += pr.X.Visited
+						ok = true
+						for _, u := range uses {
+							if len(pr.At[u]) == 0 {
+								ok = false
+							}
+							for _, st := range pr.At[u] {
+								if !an.FactIs(st, an.RoleOf(oobj), true) {
+									ok = false
+								}
+							}
+						}
+					}
+				}
+			}
+		}
 		c.Check(ok, "C13.parse", "(*Template).parseCatch/identifier-only", pc.Pos(), "the catch variable is accepted only when the term is an identifier", "parseCatch binds a catch variable without having established that the term is an identifier")
 	}
 }
